@@ -198,28 +198,28 @@ def step (s : St) (t : Nat) (e : Ev) : Option St :=
     | .took =>
       -- a task handed to the pool directly, taken from a tier
       if (id, 0) ∈ s.sub ∧ 0 ∈ s.queuedSets then
-        some ({ s with begun := id :: s.begun, queuedSets := s.queuedSets.erase 0 }.setTop t { f with pend := .none }
+        some ({ s with begun := id :: s.begun, queuedSets := s.queuedSets.erase 0 }.setTop t { f with pend := .none, guardOK := false }
               |>.pushF t { kind := .run, set := 0, id := id })
       else none
     | .guarded st =>
       if (id, st) ∈ s.sub then
-        some ({ s with begun := id :: s.begun }.setTop t { f with pend := .none }
+        some ({ s with begun := id :: s.begun }.setTop t { f with pend := .none, guardOK := false }
               |>.pushF t { kind := .run, set := st, id := id, packaged := true })
       else none
     | .inlPool =>
       -- pool-level inline of a direct task (a set's task would first pass its package guard)
       if f.resv = [(id, 0)] ∧ ¬ f.fq then
-        some ({ s with begun := id :: s.begun }.setTop t { f with pend := .none, resv := [] }
+        some ({ s with begun := id :: s.begun }.setTop t { f with pend := .none, resv := [], guardOK := false }
               |>.pushF t { kind := .run, set := 0, id := id })
       else none
     | .inlGuarded st =>
       if f.resv = [(id, st)] ∧ ¬ f.fq ∧ 0 < f.tsCredit then
-        some ({ s with begun := id :: s.begun }.setTop t { f with pend := .none, resv := [], tsCredit := f.tsCredit - 1 }
+        some ({ s with begun := id :: s.begun }.setTop t { f with pend := .none, resv := [], tsCredit := f.tsCredit - 1, guardOK := false }
               |>.pushF t { kind := .run, set := st, id := id, packaged := true })
       else none
     | .inlTs =>
       if f.resv = [(id, f.set)] ∧ ¬ f.fq then
-        some ({ s with begun := id :: s.begun }.setTop t { f with pend := .none, resv := [] }
+        some ({ s with begun := id :: s.begun }.setTop t { f with pend := .none, resv := [], guardOK := false }
               |>.pushF t { kind := .run, set := f.set, id := id })
       else none
     | .none => none
@@ -328,9 +328,10 @@ def step (s : St) (t : Nat) (e : Ev) : Option St :=
         else some (s.setTop t { f with guardOK := true })
       else none
   | .tsInline set =>
-    -- the set runs the reserved task on the caller without packaging it: only after a passed cancel check
+    -- the set runs the reserved task on the caller without packaging it: only after a passed cancel check,
+    -- which covers exactly one body (every inline run in a bulk loop has its own per-iteration check)
     if (f.kind = .sched ∨ f.kind = .bulk) ∧ f.set = set ∧ set ≠ 0 ∧ f.pend = .none ∧ f.guardOK ∧ ¬ f.fq then
-      some (s.setTop t { f with pend := .inlTs, guardOK := f.kind = .bulk })
+      some (s.setTop t { f with pend := .inlTs, guardOK := false })
     else none
   | .tsCancel set => some { s with cancelled := if set ∈ s.cancelled then s.cancelled else set :: s.cancelled }
   | .tsZero set =>
